@@ -691,16 +691,22 @@ func (s *Server) filterBatchLocked(next jmessages) jmessages {
 		// deliver the result to that call. Do this early to avoid deadlocking on
 		// the sequencing barrier (see #78).
 		//
-		// Note, however, if it does NOT correspond to a known push-call, keep it
-		// in the batch so it can be serviced as an error.
+		// If it does NOT correspond to a known push-call, a server without push
+		// keeps it in the batch so it can be serviced as an error.
 		id := string(fixID(req.ID))
 		if s.call[id] != nil {
 			rsp := s.call[id]
 			delete(s.call, id)
 			rsp.ch <- req
 			s.log("Received response for callback %q", id)
-		} else {
+		} else if !s.allowP {
 			keep = append(keep, req)
+		} else {
+			// With push enabled, a reply that matches no pending callback is
+			// late, duplicate or unsolicited. Discard it: an error response
+			// would carry the callback's ID, which the client could mistake for
+			// an answer to one of its own calls.
+			s.log("Discarding response for unknown callback %q", id)
 		}
 	}
 	return keep
